@@ -81,4 +81,3 @@ func opAcc(p []string) string {
 	s := newEncoder(p[0], w, json.EncodeOptions{})
 	return "I=" + runSteps(s, ts)
 }
-
